@@ -501,189 +501,6 @@ theorem roll_equivariant_zero {c : Cfg} (hc : GoodCfg c) (sx sy sz : ℤ) {ps ps
   rw [List.getElem?_replicate, List.getElem?_replicate, if_pos (rollCell_lt hc sx sy sz i j k),
     if_pos (flat_lt hi hj hk)]
 
-/-! ### `get_field` end to end -/
-
-/-- the kernel configuration `get_field` uses: cubic mesh; the offset goes into the TSC kernel, not into CIC's -/
-def gfCfg (kind : Kind) (n : ℕ) (box d : ℚ) : Cfg :=
-  match kind with
-  | .tsc => { kind := .tsc, gx := n, gy := n, gz := n, box := box, off := d }
-  | .cic => { kind := .cic, gx := n, gy := n, gz := n, box := box, off := 0 }
-
-/-- the particles `get_field` hands to the kernel: wrapped in place (TSC), or shifted by `d` and **not** wrapped (CIC) -/
-def gfParts (kind : Kind) (box d : ℚ) (parts : List Particle) : List Particle :=
-  match kind with
-  | .tsc => wrapInplace box parts
-  | .cic => if d ≠ 0 then parts.map (shiftParticle d) else parts
-
-theorem getField_eq (kind : Kind) (n : ℕ) (box d : ℚ) (parts : List Particle) :
-    getField kind n box d parts =
-      ((match kind with | .tsc => wrapInplace box parts | .cic => parts),
-       scatter (gfCfg kind n box d) (List.replicate (n * n * n) 0) (gfParts kind box d parts) >>=
-         fun f => normalizeField f parts.length) := by
-  cases kind <;> rfl
-
-/-- the caller's positions after the call: wrapped for TSC, untouched for CIC -/
-theorem get_field_positions (kind : Kind) (n : ℕ) (box d : ℚ) (parts : List Particle) :
-    (getField kind n box d parts).1 = match kind with | .tsc => wrapInplace box parts | .cic => parts := by
-  rw [getField_eq]
-
-theorem gfCfg_dims (kind : Kind) (n : ℕ) (box d : ℚ) :
-    (gfCfg kind n box d).gx = n ∧ (gfCfg kind n box d).gy = n ∧ (gfCfg kind n box d).gz = n ∧
-      (gfCfg kind n box d).box = box ∧ (gfCfg kind n box d).kind = kind := by
-  cases kind <;> exact ⟨rfl, rfl, rfl, rfl, rfl⟩
-
-theorem gfParts_length (kind : Kind) (box d : ℚ) (parts : List Particle) :
-    (gfParts kind box d parts).length = parts.length := by
-  cases kind
-  · simp [gfParts, wrapInplace]
-  · simp only [gfParts]; split_ifs <;> simp
-
-theorem gfParts_weights (kind : Kind) (box d : ℚ) (parts : List Particle) :
-    (gfParts kind box d parts).map (·.w) = parts.map (·.w) := by
-  cases kind
-  · simp [gfParts, wrapInplace, wrapParticle, Function.comp_def]
-  · simp only [gfParts]; split_ifs <;> simp [shiftParticle, Function.comp_def]
-
-theorem gfParts_append (kind : Kind) (box d : ℚ) (ps qs : List Particle) :
-    gfParts kind box d (ps ++ qs) = gfParts kind box d ps ++ gfParts kind box d qs := by
-  cases kind
-  · simp [gfParts, wrapInplace]
-  · simp only [gfParts]; split_ifs <;> simp
-
-theorem sum_map_affine (l : List ℚ) (a : ℚ) : (l.map (fun v => v * a - 1)).sum = l.sum * a - l.length := by
-  induction l with
-  | nil => simp
-  | cons x xs ih => simp only [List.map_cons, List.sum_cons, ih, List.length_cons]; push_cast; ring
-
-theorem normalizeField_ok {f g : List ℚ} {N : ℕ} (h : normalizeField f N = .ok g) :
-    N ≠ 0 ∧ g = f.map (fun v => v * ((f.length : ℚ) / (N : ℚ)) - 1) := by
-  unfold normalizeField at h
-  split_ifs at h with h0
-  cases h
-  exact ⟨h0, rfl⟩
-
-/-- the deposit `get_field` normalises, from a successful call -/
-theorem getField_ok {kind : Kind} {n : ℕ} {box d : ℚ} {parts : List Particle} {f : List ℚ}
-    (h : (getField kind n box d parts).2 = .ok f) :
-    parts.length ≠ 0 ∧ ∃ r, scatter (gfCfg kind n box d) (List.replicate (n * n * n) 0) (gfParts kind box d parts) = .ok r ∧
-      r.length = n * n * n ∧
-      f = r.map (fun v => v * (((n * n * n : ℕ) : ℚ) / (parts.length : ℚ)) - 1) := by
-  rw [getField_eq] at h
-  simp only at h
-  cases hs : scatter (gfCfg kind n box d) (List.replicate (n * n * n) 0) (gfParts kind box d parts) with
-  | error e => rw [hs] at h; cases h
-  | ok r =>
-    rw [hs] at h
-    obtain ⟨hN, hf⟩ := normalizeField_ok (show normalizeField r parts.length = .ok f from h)
-    obtain ⟨d1, d2, d3, _, _⟩ := gfCfg_dims kind n box d
-    have hl := (total_conserved _ _ r _ (by rw [d1, d2, d3]; simp) hs).2
-    rw [List.length_replicate] at hl
-    exact ⟨hN, r, rfl, hl, by rw [hf, hl]⟩
-
-/-- **get_field_spec.**  Whenever `get_field` returns, it had at least one particle and the returned field is,
-cell by cell, `(n³/N) · deposit − 1`, where the deposit of each particle is given by `deposit_is_kernel` at its
-wrapped (TSC, offset inside the kernel) or shifted and unwrapped (CIC) position; its grid total is
-`n³ · (Σw / N) − n³`. -/
-theorem get_field_spec (kind : Kind) (n : ℕ) (box d : ℚ) (parts : List Particle) (f : List ℚ)
-    (h : (getField kind n box d parts).2 = .ok f) :
-    parts.length ≠ 0 ∧ f.length = n * n * n ∧
-      f.sum = ((n * n * n : ℕ) : ℚ) * ((parts.map (·.w)).sum / (parts.length : ℚ)) - ((n * n * n : ℕ) : ℚ) ∧
-      ∀ cell, f[cell]? =
-        if cell < n * n * n then
-          some (((gfParts kind box d parts).map (fun pt => dep (gfCfg kind n box d) pt cell)).sum *
-            (((n * n * n : ℕ) : ℚ) / (parts.length : ℚ)) - 1)
-        else none := by
-  obtain ⟨hN, r, hs, hl, rfl⟩ := getField_ok h
-  obtain ⟨d1, d2, d3, _, _⟩ := gfCfg_dims kind n box d
-  have ht := (total_conserved _ _ r _ (by rw [d1, d2, d3]; simp) hs).1
-  refine ⟨hN, by simp [hl], ?_, ?_⟩
-  · have hN' : (parts.length : ℚ) ≠ 0 := Nat.cast_ne_zero.mpr hN
-    rw [sum_map_affine, ht, gfParts_weights, hl]
-    simp only [List.sum_replicate, smul_zero, zero_add]
-    field_simp
-  · intro cell
-    rw [List.getElem?_map, deposit_superposition _ _ r _ hs cell, List.getElem?_replicate]
-    split_ifs <;> simp
-
-/-- unit weights: the normalised field sums to zero -/
-theorem get_field_total_unit (kind : Kind) (n : ℕ) (box d : ℚ) (parts : List Particle) (f : List ℚ)
-    (h : (getField kind n box d parts).2 = .ok f) (hw : ∀ pt ∈ parts, pt.w = 1) : f.sum = 0 := by
-  obtain ⟨hN, _, hs, _⟩ := get_field_spec kind n box d parts f h
-  have hN' : (parts.length : ℚ) ≠ 0 := Nat.cast_ne_zero.mpr hN
-  have : (parts.map (·.w)).sum = (parts.length : ℚ) := by
-    clear h hs hN hN'
-    induction parts with
-    | nil => simp
-    | cons p ps ih =>
-      simp only [List.map_cons, List.sum_cons, List.length_cons]
-      rw [hw p (by simp), ih (fun q hq => hw q (by simp [hq]))]; push_cast; ring
-  rw [hs, this, div_self hN']; ring
-
-/-- **additivity up to normalisation.**  If `get_field` returns for `ps` and for `qs` it returns for `ps ++ qs`, and
-`(Np + Nq)(f + 1) = Np (f_p + 1) + Nq (f_q + 1)` cell by cell. -/
-theorem get_field_additive (kind : Kind) (n : ℕ) (box d : ℚ) (ps qs : List Particle) (fp fq : List ℚ)
-    (hp : (getField kind n box d ps).2 = .ok fp) (hq : (getField kind n box d qs).2 = .ok fq) :
-    ∃ f, (getField kind n box d (ps ++ qs)).2 = .ok f ∧
-      ∀ (cell : ℕ) (x xp xq : ℚ), f[cell]? = some x → fp[cell]? = some xp → fq[cell]? = some xq →
-        ((ps.length : ℚ) + qs.length) * (x + 1) = ps.length * (xp + 1) + qs.length * (xq + 1) := by
-  obtain ⟨hNp, rp, hsp, hlp, _⟩ := getField_ok hp
-  obtain ⟨hNq, rq, hsq, hlq, _⟩ := getField_ok hq
-  have hsum := additive (gfCfg kind n box d) (List.replicate (n * n * n) 0) rp rq _ _ (by simp) hsp hsq
-  have hex : ∃ f, (getField kind n box d (ps ++ qs)).2 = .ok f := by
-    rw [getField_eq]
-    simp only
-    rw [gfParts_append, hsum]
-    simp only [bind, Except.bind, normalizeField]
-    rw [if_neg (by simp; omega)]
-    exact ⟨_, rfl⟩
-  obtain ⟨f, hf⟩ := hex
-  refine ⟨f, hf, ?_⟩
-  intro cell x xp xq hx hxp hxq
-  obtain ⟨hN, _, _, hc⟩ := get_field_spec kind n box d _ f hf
-  obtain ⟨_, _, _, hcp⟩ := get_field_spec kind n box d _ fp hp
-  obtain ⟨_, _, _, hcq⟩ := get_field_spec kind n box d _ fq hq
-  rw [hc cell] at hx; rw [hcp cell] at hxp; rw [hcq cell] at hxq
-  split_ifs at hx hxp hxq
-  simp only [Option.some.injEq] at hx hxp hxq
-  have hNp' : (ps.length : ℚ) ≠ 0 := Nat.cast_ne_zero.mpr hNp
-  have hNq' : (qs.length : ℚ) ≠ 0 := Nat.cast_ne_zero.mpr hNq
-  have hN' : ((ps ++ qs).length : ℚ) ≠ 0 := Nat.cast_ne_zero.mpr hN
-  rw [gfParts_append, List.map_append, List.sum_append] at hx
-  rw [List.length_append] at hx hN'
-  push_cast at hx hN'
-  rw [← hx, ← hxp, ← hxq]
-  field_simp
-  ring
-
-/-- **roll equivariance of `get_field`.**  If the particles handed to the kernel are shifted by whole cells (with
-periodic wrap), the normalised field is rolled. -/
-theorem get_field_roll (kind : Kind) {n : ℕ} (hn : 1 ≤ n) {box : ℚ} (hb : box ≠ 0) (d : ℚ) (sx sy sz : ℤ)
-    {parts parts' : List Particle} (hN : parts.length ≠ 0)
-    (hS : List.Forall₂ (Shifted (gfCfg kind n box d) sx sy sz) (gfParts kind box d parts) (gfParts kind box d parts'))
-    (hd : ∀ pt ∈ gfParts kind box d parts, InDomain (gfCfg kind n box d) pt)
-    (hd' : ∀ pt ∈ gfParts kind box d parts', InDomain (gfCfg kind n box d) pt) :
-    ∃ f f', (getField kind n box d parts).2 = .ok f ∧ (getField kind n box d parts').2 = .ok f' ∧
-      ∀ i j k, i < n → j < n → k < n →
-        f'[rollCell (gfCfg kind n box d) sx sy sz i j k]? = f[flat n n i j k]? := by
-  obtain ⟨d1, d2, d3, d4, _⟩ := gfCfg_dims kind n box d
-  have hc : GoodCfg (gfCfg kind n box d) := ⟨by rw [d4]; exact hb, by rw [d1]; exact hn, by rw [d2]; exact hn,
-    by rw [d3]; exact hn⟩
-  obtain ⟨r, r', hr, hr', h⟩ := roll_equivariant_zero hc sx sy sz hS hd hd'
-  rw [d1, d2, d3] at hr hr' h
-  have hlen : parts'.length = parts.length := by
-    have := hS.length_eq
-    rw [gfParts_length, gfParts_length] at this
-    exact this.symm
-  refine ⟨_, _, ?_, ?_, ?_⟩
-  · rw [getField_eq]; simp only; rw [hr]
-    simp only [bind, Except.bind, normalizeField, if_neg hN]
-  · rw [getField_eq]; simp only; rw [hr']
-    simp only [bind, Except.bind, normalizeField, if_neg (by rw [hlen]; exact hN)]
-  · intro i j k hi hj hk
-    have hl := (total_conserved _ _ r _ (by rw [d1, d2, d3]; simp) hr).2
-    have hl' := (total_conserved _ _ r' _ (by rw [d1, d2, d3]; simp) hr').2
-    rw [List.getElem?_map, List.getElem?_map, h i j k hi hj hk, hlen, hl, hl']
-
 /-! ### non-vacuity: a concrete anisotropic deposit -/
 
 /-- a 2 x 3 x 4 TSC grid on a box of 12 with a half-cell-of-x offset … -/
@@ -784,5 +601,559 @@ theorem wrapInplace_spec (box : ℚ) (parts : List Particle) :
 
 example : wrap1 12 (-1/2) = 23/2 ∧ wrap1 12 12 = 0 ∧ wrap1 12 (47/2) = 23/2 ∧ wrap1 12 5 = 5 := by
   decide +kernel
+
+/-! ### `get_field` end to end -/
+
+/-- the kernel configuration `get_field` uses: cubic mesh; the offset goes into the TSC kernel, not into CIC's -/
+def gfCfg (kind : Kind) (n : ℕ) (box d : ℚ) : Cfg :=
+  match kind with
+  | .tsc => { kind := .tsc, gx := n, gy := n, gz := n, box := box, off := d }
+  | .cic => { kind := .cic, gx := n, gy := n, gz := n, box := box, off := 0 }
+
+/-- the particles `get_field` hands to the kernel: wrapped in place (TSC), or shifted by `d` and **not** wrapped (CIC) -/
+def gfParts (kind : Kind) (box d : ℚ) (parts : List Particle) : List Particle :=
+  match kind with
+  | .tsc => wrapInplace box parts
+  | .cic => if d ≠ 0 then parts.map (shiftParticle d) else parts
+
+theorem getField_eq (kind : Kind) (n : ℕ) (box d : ℚ) (parts : List Particle) :
+    getField kind n box d parts =
+      ((match kind with | .tsc => wrapInplace box parts | .cic => parts),
+       scatter (gfCfg kind n box d) (List.replicate (n * n * n) 0) (gfParts kind box d parts) >>=
+         fun f => normalizeField f parts.length) := by
+  cases kind <;> rfl
+
+/-- the caller's positions after the call: wrapped for TSC, untouched for CIC -/
+theorem get_field_positions (kind : Kind) (n : ℕ) (box d : ℚ) (parts : List Particle) :
+    (getField kind n box d parts).1 = match kind with | .tsc => wrapInplace box parts | .cic => parts := by
+  rw [getField_eq]
+
+theorem gfCfg_dims (kind : Kind) (n : ℕ) (box d : ℚ) :
+    (gfCfg kind n box d).gx = n ∧ (gfCfg kind n box d).gy = n ∧ (gfCfg kind n box d).gz = n ∧
+      (gfCfg kind n box d).box = box ∧ (gfCfg kind n box d).kind = kind := by
+  cases kind <;> exact ⟨rfl, rfl, rfl, rfl, rfl⟩
+
+theorem gfParts_length (kind : Kind) (box d : ℚ) (parts : List Particle) :
+    (gfParts kind box d parts).length = parts.length := by
+  cases kind
+  · simp [gfParts, wrapInplace]
+  · simp only [gfParts]; split_ifs <;> simp
+
+theorem gfParts_weights (kind : Kind) (box d : ℚ) (parts : List Particle) :
+    (gfParts kind box d parts).map (·.w) = parts.map (·.w) := by
+  cases kind
+  · simp [gfParts, wrapInplace, wrapParticle, Function.comp_def]
+  · simp only [gfParts]; split_ifs <;> simp [shiftParticle, Function.comp_def]
+
+theorem gfParts_append (kind : Kind) (box d : ℚ) (ps qs : List Particle) :
+    gfParts kind box d (ps ++ qs) = gfParts kind box d ps ++ gfParts kind box d qs := by
+  cases kind
+  · simp [gfParts, wrapInplace]
+  · simp only [gfParts]; split_ifs <;> simp
+
+theorem sum_replicate_zero (m : ℕ) : (List.replicate m (0 : ℚ)).sum = 0 := by
+  induction m with
+  | zero => rfl
+  | succ m ih => simp [List.replicate_succ, ih]
+
+theorem sum_unit_weights (parts : List Particle) (hw : ∀ pt ∈ parts, pt.w = 1) :
+    (parts.map (·.w)).sum = (parts.length : ℚ) := by
+  induction parts with
+  | nil => simp
+  | cons p ps ih =>
+    simp only [List.map_cons, List.sum_cons, List.length_cons]
+    rw [hw p (by simp), ih (fun q hq => hw q (by simp [hq]))]; push_cast; ring
+
+theorem sum_map_affine (l : List ℚ) (a : ℚ) : (l.map (fun v => v * a - 1)).sum = l.sum * a - l.length := by
+  induction l with
+  | nil => simp
+  | cons x xs ih => simp only [List.map_cons, List.sum_cons, ih, List.length_cons]; push_cast; ring
+
+theorem normalizeField_ok {f g : List ℚ} {N : ℕ} (h : normalizeField f N = .ok g) :
+    N ≠ 0 ∧ g = f.map (fun v => v * ((f.length : ℚ) / (N : ℚ)) - 1) := by
+  unfold normalizeField at h
+  split_ifs at h with h0
+  cases h
+  exact ⟨h0, rfl⟩
+
+/-- the deposit `get_field` normalises, from a successful call -/
+theorem getField_ok {kind : Kind} {n : ℕ} {box d : ℚ} {parts : List Particle} {f : List ℚ}
+    (h : (getField kind n box d parts).2 = .ok f) :
+    parts.length ≠ 0 ∧ ∃ r, scatter (gfCfg kind n box d) (List.replicate (n * n * n) 0) (gfParts kind box d parts) = .ok r ∧
+      r.length = n * n * n ∧
+      f = r.map (fun v => v * (((n * n * n : ℕ) : ℚ) / (parts.length : ℚ)) - 1) := by
+  rw [getField_eq] at h
+  simp only at h
+  cases hs : scatter (gfCfg kind n box d) (List.replicate (n * n * n) 0) (gfParts kind box d parts) with
+  | error e => rw [hs] at h; cases h
+  | ok r =>
+    rw [hs] at h
+    obtain ⟨hN, hf⟩ := normalizeField_ok (show normalizeField r parts.length = .ok f from h)
+    obtain ⟨d1, d2, d3, _, _⟩ := gfCfg_dims kind n box d
+    have hl := (total_conserved _ _ r _ (by rw [d1, d2, d3]; simp) hs).2
+    rw [List.length_replicate] at hl
+    exact ⟨hN, r, rfl, hl, by rw [hf, hl]⟩
+
+/-- **get_field_spec.**  Whenever `get_field` returns, it had at least one particle and the returned field is,
+cell by cell, `(n³/N) · deposit − 1`, where the deposit of each particle is given by `deposit_is_kernel` at its
+wrapped (TSC, offset inside the kernel) or shifted and unwrapped (CIC) position; its grid total is
+`n³ · (Σw / N) − n³`. -/
+theorem get_field_spec (kind : Kind) (n : ℕ) (box d : ℚ) (parts : List Particle) (f : List ℚ)
+    (h : (getField kind n box d parts).2 = .ok f) :
+    parts.length ≠ 0 ∧ f.length = n * n * n ∧
+      f.sum = ((n * n * n : ℕ) : ℚ) * ((parts.map (·.w)).sum / (parts.length : ℚ)) - ((n * n * n : ℕ) : ℚ) ∧
+      ∀ cell, f[cell]? =
+        if cell < n * n * n then
+          some (((gfParts kind box d parts).map (fun pt => dep (gfCfg kind n box d) pt cell)).sum *
+            (((n * n * n : ℕ) : ℚ) / (parts.length : ℚ)) - 1)
+        else none := by
+  obtain ⟨hN, r, hs, hl, rfl⟩ := getField_ok h
+  obtain ⟨d1, d2, d3, _, _⟩ := gfCfg_dims kind n box d
+  have ht := (total_conserved _ _ r _ (by rw [d1, d2, d3]; simp) hs).1
+  refine ⟨hN, by simp [hl], ?_, ?_⟩
+  · have hN' : (parts.length : ℚ) ≠ 0 := Nat.cast_ne_zero.mpr hN
+    rw [sum_map_affine, ht, gfParts_weights, hl, sum_replicate_zero, zero_add]
+    field_simp
+  · intro cell
+    rw [List.getElem?_map, deposit_superposition _ _ r _ hs cell, List.getElem?_replicate]
+    split_ifs <;> simp
+
+/-- unit weights: the normalised field sums to zero -/
+theorem get_field_total_unit (kind : Kind) (n : ℕ) (box d : ℚ) (parts : List Particle) (f : List ℚ)
+    (h : (getField kind n box d parts).2 = .ok f) (hw : ∀ pt ∈ parts, pt.w = 1) : f.sum = 0 := by
+  obtain ⟨hN, _, hs, _⟩ := get_field_spec kind n box d parts f h
+  have hN' : (parts.length : ℚ) ≠ 0 := Nat.cast_ne_zero.mpr hN
+  have := sum_unit_weights parts hw
+  rw [hs, this, div_self hN']; ring
+
+/-- **additivity up to normalisation.**  If `get_field` returns for `ps` and for `qs` it returns for `ps ++ qs`, and
+`(Np + Nq)(f + 1) = Np (f_p + 1) + Nq (f_q + 1)` cell by cell. -/
+theorem get_field_additive (kind : Kind) (n : ℕ) (box d : ℚ) (ps qs : List Particle) (fp fq : List ℚ)
+    (hp : (getField kind n box d ps).2 = .ok fp) (hq : (getField kind n box d qs).2 = .ok fq) :
+    ∃ f, (getField kind n box d (ps ++ qs)).2 = .ok f ∧
+      ∀ (cell : ℕ) (x xp xq : ℚ), f[cell]? = some x → fp[cell]? = some xp → fq[cell]? = some xq →
+        ((ps.length : ℚ) + qs.length) * (x + 1) = ps.length * (xp + 1) + qs.length * (xq + 1) := by
+  obtain ⟨hNp, rp, hsp, hlp, _⟩ := getField_ok hp
+  obtain ⟨hNq, rq, hsq, hlq, _⟩ := getField_ok hq
+  have hsum := additive (gfCfg kind n box d) (List.replicate (n * n * n) 0) rp rq _ _ (by simp) hsp hsq
+  have hex : ∃ f, (getField kind n box d (ps ++ qs)).2 = .ok f := by
+    rw [getField_eq]
+    simp only
+    rw [gfParts_append, hsum]
+    have hne : (ps ++ qs).length ≠ 0 := by rw [List.length_append]; omega
+    simp only [bind, Except.bind, normalizeField, if_neg hne]
+    exact ⟨_, rfl⟩
+  obtain ⟨f, hf⟩ := hex
+  refine ⟨f, hf, ?_⟩
+  intro cell x xp xq hx hxp hxq
+  obtain ⟨hN, _, _, hc⟩ := get_field_spec kind n box d _ f hf
+  obtain ⟨_, _, _, hcp⟩ := get_field_spec kind n box d _ fp hp
+  obtain ⟨_, _, _, hcq⟩ := get_field_spec kind n box d _ fq hq
+  rw [hc cell] at hx; rw [hcp cell] at hxp; rw [hcq cell] at hxq
+  split_ifs at hx hxp hxq
+  simp only [Option.some.injEq] at hx hxp hxq
+  have hNp' : (ps.length : ℚ) ≠ 0 := Nat.cast_ne_zero.mpr hNp
+  have hNq' : (qs.length : ℚ) ≠ 0 := Nat.cast_ne_zero.mpr hNq
+  have hN' : ((ps ++ qs).length : ℚ) ≠ 0 := Nat.cast_ne_zero.mpr hN
+  rw [gfParts_append, List.map_append, List.sum_append] at hx
+  rw [List.length_append] at hx hN'
+  push_cast at hx hN'
+  rw [← hx, ← hxp, ← hxq]
+  field_simp
+  push_cast
+  ring
+
+/-- **roll equivariance of `get_field`.**  If the particles handed to the kernel are shifted by whole cells (with
+periodic wrap), the normalised field is rolled. -/
+theorem get_field_roll (kind : Kind) {n : ℕ} (hn : 1 ≤ n) {box : ℚ} (hb : box ≠ 0) (d : ℚ) (sx sy sz : ℤ)
+    {parts parts' : List Particle} (hN : parts.length ≠ 0)
+    (hS : List.Forall₂ (Shifted (gfCfg kind n box d) sx sy sz) (gfParts kind box d parts) (gfParts kind box d parts'))
+    (hd : ∀ pt ∈ gfParts kind box d parts, InDomain (gfCfg kind n box d) pt)
+    (hd' : ∀ pt ∈ gfParts kind box d parts', InDomain (gfCfg kind n box d) pt) :
+    ∃ f f', (getField kind n box d parts).2 = .ok f ∧ (getField kind n box d parts').2 = .ok f' ∧
+      ∀ i j k, i < n → j < n → k < n →
+        f'[rollCell (gfCfg kind n box d) sx sy sz i j k]? = f[flat n n i j k]? := by
+  obtain ⟨d1, d2, d3, d4, _⟩ := gfCfg_dims kind n box d
+  have hc : GoodCfg (gfCfg kind n box d) := ⟨by rw [d4]; exact hb, by rw [d1]; exact hn, by rw [d2]; exact hn,
+    by rw [d3]; exact hn⟩
+  obtain ⟨r, r', hr, hr', h⟩ := roll_equivariant_zero hc sx sy sz hS hd hd'
+  rw [d1, d2, d3] at hr hr' h
+  have hlen : parts'.length = parts.length := by
+    have := hS.length_eq
+    rw [gfParts_length, gfParts_length] at this
+    exact this.symm
+  have hl := (total_conserved _ _ r _ (by rw [d1, d2, d3]; simp) hr).2
+  have hl' := (total_conserved _ _ r' _ (by rw [d1, d2, d3]; simp) hr').2
+  refine ⟨r.map (fun v => v * ((r.length : ℚ) / (parts.length : ℚ)) - 1),
+    r'.map (fun v => v * ((r'.length : ℚ) / (parts'.length : ℚ)) - 1), ?_, ?_, ?_⟩
+  · rw [getField_eq]; simp only; rw [hr]
+    simp only [bind, Except.bind, normalizeField, if_neg hN]
+  · rw [getField_eq]; simp only; rw [hr']
+    have hN2 : parts'.length ≠ 0 := by rw [hlen]; exact hN
+    simp only [bind, Except.bind, normalizeField, if_neg hN2]
+  · intro i j k hi hj hk
+    rw [List.getElem?_map, List.getElem?_map, h i j k hi hj hk, hlen, hl, hl']
+
+/-- inside the domain and with at least one particle `get_field` returns -/
+theorem get_field_no_fault (kind : Kind) {n : ℕ} (hn : 1 ≤ n) {box : ℚ} (hb : box ≠ 0) (d : ℚ)
+    {parts : List Particle} (hN : parts.length ≠ 0)
+    (hd : ∀ pt ∈ gfParts kind box d parts, InDomain (gfCfg kind n box d) pt) :
+    ∃ f, (getField kind n box d parts).2 = .ok f := by
+  obtain ⟨d1, d2, d3, d4, _⟩ := gfCfg_dims kind n box d
+  have hc : GoodCfg (gfCfg kind n box d) := ⟨by rw [d4]; exact hb, by rw [d1]; exact hn, by rw [d2]; exact hn,
+    by rw [d3]; exact hn⟩
+  obtain ⟨r, hr⟩ := scatter_no_fault hc (List.replicate (n * n * n) 0) hd
+  rw [getField_eq]; simp only; rw [hr]
+  simp only [bind, Except.bind, normalizeField, if_neg hN]
+  exact ⟨_, rfl⟩
+
+/-- non-vacuity: a 2³ TSC mesh on a box of 4 with the interlacing offset of half a cell; the first particle needs
+the wrap on two coordinates (`-1/2 → 7/2`, `5 → 1`); weights 2 and 1 -/
+def exG : List Particle := [{ x := -1/2, y := 1, z := 5, w := 2 }, { x := 3, y := 0, z := 0, w := 1 }]
+
+theorem exG_dom (kind : Kind) : ∀ pt ∈ gfParts kind 4 1 exG, InDomain (gfCfg kind 2 4 1) pt := by
+  intro pt hpt
+  cases kind
+  · simp only [gfParts, wrapInplace, exG, List.map_cons, List.map_nil, List.mem_cons, List.not_mem_nil,
+      or_false] at hpt
+    rcases hpt with rfl | rfl <;> (unfold InDomain gridCoord gfCfg wrapParticle wrap1; norm_num)
+  · simp only [gfParts, exG, List.map_cons, List.map_nil, List.mem_cons, List.not_mem_nil, or_false, ne_eq,
+      one_ne_zero, not_false_eq_true, if_true] at hpt
+    rcases hpt with rfl | rfl <;> (unfold InDomain gridCoord gfCfg shiftParticle; norm_num)
+
+example (kind : Kind) : ∃ f, (getField kind 2 4 1 exG).2 = .ok f ∧ f.length = 8 ∧ f.sum = 4 := by
+  obtain ⟨f, hf⟩ := get_field_no_fault kind (n := 2) (by norm_num) (box := 4) (by norm_num) 1 (parts := exG)
+    (by simp [exG]) (exG_dom kind)
+  obtain ⟨_, hl, hs, _⟩ := get_field_spec kind 2 4 1 exG f hf
+  refine ⟨f, hf, by simpa using hl, ?_⟩
+  rw [hs]; simp [exG]; norm_num
+
+example : (getField .tsc 2 4 1 exG).1 = [{ x := 7/2, y := 1, z := 1, w := 2 }, { x := 3, y := 0, z := 0, w := 1 }] ∧
+    (getField .cic 2 4 1 exG).1 = exG := by
+  constructor
+  · rw [get_field_positions]; simp [wrapInplace, wrapParticle, wrap1, exG]; norm_num
+  · rw [get_field_positions]
+
+/-- roll of a whole deposit on the anisotropic example: both particles one cell right in `x`, one cell left in `y`,
+with different wraps -/
+def exParts' : List Particle := [{ x := 6, y := 10, z := 9/2, w := 3/2 }, { x := 7, y := 8, z := 12, w := 1/4 }]
+
+example : ∃ r r', scatter exCfg (List.replicate 24 0) exParts = .ok r ∧
+    scatter exCfg (List.replicate 24 0) exParts' = .ok r' ∧ r'[rollCell exCfg 1 (-1) 0 0 1 2]? = r[flat 3 4 0 1 2]? := by
+  have hS : List.Forall₂ (Shifted exCfg 1 (-1) 0) exParts exParts' := by
+    refine List.Forall₂.cons ⟨1, -1, 0, ?_, ?_, ?_, rfl⟩ (List.Forall₂.cons ⟨0, -1, 0, ?_, ?_, ?_, rfl⟩ List.Forall₂.nil)
+      <;> (simp [exCfg]; try norm_num)
+  have hd' : ∀ pt ∈ exParts', InDomain exCfg pt := by
+    intro pt hpt
+    simp only [exParts', List.mem_cons, List.not_mem_nil, or_false] at hpt
+    rcases hpt with rfl | rfl <;> (unfold InDomain gridCoord exCfg; norm_num)
+  obtain ⟨r, r', hr, hr', h⟩ := roll_equivariant_zero exCfg_good 1 (-1) 0 hS exParts_dom hd'
+  exact ⟨r, r', hr, hr', h 0 1 2 (by decide) (by decide) (by decide)⟩
+
+/-! ### forward error of the per-axis weights under the standard floating-point model
+
+Every rounded operation returns its exact result times `1 + δ` with `|δ| ≤ u` (`u` the unit roundoff:
+`2^-24` for float32, `2^-53` for float64).  All statements are over ℚ: the `δ`s are arbitrary rationals
+bounded by `u`, so the theorems cover every rounding the hardware (or a `fastmath` re-association that keeps the
+number of roundings) may have made. -/
+
+theorem rel_two {a b s t : ℚ} (ha : |a| ≤ s) (hb : |b| ≤ t) : |(1 + a) * (1 + b) - 1| ≤ s + t + s * t := by
+  have e : (1 + a) * (1 + b) - 1 = a + b + a * b := by ring
+  have hs : 0 ≤ s := le_trans (abs_nonneg a) ha
+  rw [e]
+  calc |a + b + a * b| ≤ |a + b| + |a * b| := abs_add_le _ _
+    _ ≤ (|a| + |b|) + |a| * |b| := by rw [abs_mul]; linarith [abs_add_le a b]
+    _ ≤ s + t + s * t := by
+        have := mul_le_mul ha hb (abs_nonneg b) hs
+        linarith
+
+theorem abs_one_add_le {a u : ℚ} (ha : |a| ≤ u) : |1 + a| ≤ 1 + u := by
+  calc |1 + a| ≤ |(1 : ℚ)| + |a| := abs_add_le _ _
+    _ ≤ 1 + u := by rw [abs_one]; linarith
+
+theorem abs_mul_le_mul {a b A B : ℚ} (ha : |a| ≤ A) (hb : |b| ≤ B) : |a * b| ≤ A * B := by
+  rw [abs_mul]
+  exact mul_le_mul ha hb (abs_nonneg b) (le_trans (abs_nonneg a) ha)
+
+/-- **coordinate.**  TSC computes `p̃ = fl(fl(x + offset) · fl(g / box))`: three roundings, so
+`|p̃ − p| ≤ (31/10) u |p|`. -/
+theorem coord_forward_error {u x off g box a b c : ℚ} (hu0 : 0 ≤ u) (hu : u ≤ 1/100)
+    (ha : |a| ≤ u) (hb : |b| ≤ u) (hc : |c| ≤ u) :
+    |((x + off) * (1 + a)) * ((g / box) * (1 + b)) * (1 + c) - (x + off) * (g / box)| ≤
+      31/10 * u * |(x + off) * (g / box)| := by
+  have h2 := rel_two ha hb
+  have h3 := rel_two (a := (1 + a) * (1 + b) - 1) (b := c) h2 hc
+  have e : ((x + off) * (1 + a)) * ((g / box) * (1 + b)) * (1 + c) - (x + off) * (g / box) =
+      ((x + off) * (g / box)) * ((1 + ((1 + a) * (1 + b) - 1)) * (1 + c) - 1) := by ring
+  rw [e, abs_mul, mul_comm]
+  apply mul_le_mul_of_nonneg_right _ (abs_nonneg _)
+  calc _ ≤ u + u + u * u + u + (u + u + u * u) * u := h3
+    _ ≤ 31/10 * u := by nlinarith [mul_nonneg hu0 hu0, mul_nonneg (mul_nonneg hu0 hu0) hu0]
+
+/-- the distance to the cell centre: `d̃ = fl(ix − p̃)`, where `ix` is nearest to the *computed* `p̃` -/
+theorem dist_forward_error {u η p pt δ : ℚ} {ix : ℤ} (hp : |pt - p| ≤ η)
+    (hix : |(ix : ℚ) - pt| ≤ 1/2) (hδ : |δ| ≤ u) :
+    |((ix : ℚ) - pt) * (1 + δ) - ((ix : ℚ) - p)| ≤ η + u / 2 ∧
+      |((ix : ℚ) - pt) * (1 + δ)| ≤ 1/2 * (1 + u) ∧ |(ix : ℚ) - p| ≤ 1/2 + η := by
+  refine ⟨?_, ?_, ?_⟩
+  · have e : ((ix : ℚ) - pt) * (1 + δ) - ((ix : ℚ) - p) = (p - pt) + ((ix : ℚ) - pt) * δ := by ring
+    rw [e]
+    have h1 : |p - pt| ≤ η := by rw [abs_sub_comm]; exact hp
+    have h2 := abs_mul_le_mul hix hδ
+    calc _ ≤ |p - pt| + |((ix : ℚ) - pt) * δ| := abs_add_le _ _
+      _ ≤ η + u / 2 := by linarith
+  · have := abs_mul_le_mul hix (abs_one_add_le hδ)
+    linarith
+  · have e : (ix : ℚ) - p = ((ix : ℚ) - pt) + (pt - p) := by ring
+    rw [e]
+    calc _ ≤ |(ix : ℚ) - pt| + |pt - p| := abs_add_le _ _
+      _ ≤ 1/2 + η := by linarith
+
+/-- centre weight `fl(3/4 − fl(d̃²))` -/
+theorem centre_forward_error {u η d dt a b : ℚ} (hu0 : 0 ≤ u) (hu : u ≤ 1/100) (hη0 : 0 ≤ η) (hη : η ≤ 1/10)
+    (he : |dt - d| ≤ η + u / 2) (hdt : |dt| ≤ 1/2 * (1 + u)) (hd : |d| ≤ 1/2 + η)
+    (ha : |a| ≤ u) (hb : |b| ≤ u) :
+    |(3/4 - dt ^ 2 * (1 + a)) * (1 + b) - (3/4 - d ^ 2)| ≤ 6/5 * η + 3 * u := by
+  have e : (3/4 - dt ^ 2 * (1 + a)) * (1 + b) - (3/4 - d ^ 2) =
+      (d - dt) * (d + dt) - dt ^ 2 * a + (3/4 - dt ^ 2 * (1 + a)) * b := by ring
+  have h1 : |d - dt| ≤ η + u / 2 := by rw [abs_sub_comm]; exact he
+  have h2 : |d + dt| ≤ (1/2 + η) + 1/2 * (1 + u) := le_trans (abs_add_le _ _) (by linarith)
+  have t1 := abs_mul_le_mul h1 h2
+  have hsq : |dt ^ 2| ≤ (1/2 * (1 + u)) * (1/2 * (1 + u)) := by rw [pow_two]; exact abs_mul_le_mul hdt hdt
+  have t2 := abs_mul_le_mul hsq ha
+  have h3 : |dt ^ 2 * (1 + a)| ≤ (1/2 * (1 + u)) * (1/2 * (1 + u)) * (1 + u) := abs_mul_le_mul hsq (abs_one_add_le ha)
+  have h4 : |3/4 - dt ^ 2 * (1 + a)| ≤ 3/4 + (1/2 * (1 + u)) * (1/2 * (1 + u)) * (1 + u) := by
+    calc _ ≤ |(3/4 : ℚ)| + |dt ^ 2 * (1 + a)| := abs_sub _ _
+      _ ≤ _ := by rw [abs_of_pos (by norm_num : (0 : ℚ) < 3/4)]; linarith
+  have t3 := abs_mul_le_mul h4 hb
+  rw [e]
+  have tri : |(d - dt) * (d + dt) - dt ^ 2 * a + (3/4 - dt ^ 2 * (1 + a)) * b| ≤
+      |(d - dt) * (d + dt)| + |dt ^ 2 * a| + |(3/4 - dt ^ 2 * (1 + a)) * b| :=
+    le_trans (abs_add_le _ _) (by linarith [abs_sub ((d - dt) * (d + dt)) (dt ^ 2 * a)])
+  have hK : (1/2 * (1 + u)) * (1/2 * (1 + u)) ≤ 13/50 := by nlinarith
+  have hK3 : (1/2 * (1 + u)) * (1/2 * (1 + u)) * (1 + u) ≤ 27/100 := by nlinarith
+  have n1 : (η + u / 2) * ((1/2 + η) + 1/2 * (1 + u)) ≤ 111/100 * η + 3/5 * u := by nlinarith
+  have n2 : (1/2 * (1 + u)) * (1/2 * (1 + u)) * u ≤ 13/50 * u := by nlinarith
+  have n3 : (3/4 + (1/2 * (1 + u)) * (1/2 * (1 + u)) * (1 + u)) * u ≤ 102/100 * u := by nlinarith
+  linarith
+
+/-- side weight `fl(1/2 · fl(fl(1/2 + d̃)²))` (use `-d̃`, `-d` for the other side) -/
+theorem side_forward_error {u η d dt a b c : ℚ} (hu0 : 0 ≤ u) (hu : u ≤ 1/100) (hη0 : 0 ≤ η) (hη : η ≤ 1/10)
+    (he : |dt - d| ≤ η + u / 2) (hdt : |dt| ≤ 1/2 * (1 + u)) (hd : |d| ≤ 1/2 + η)
+    (ha : |a| ≤ u) (hb : |b| ≤ u) (hc : |c| ≤ u) :
+    |1/2 * (((1/2 + dt) * (1 + a)) ^ 2 * (1 + b)) * (1 + c) - 1/2 * (1/2 + d) ^ 2| ≤ 6/5 * η + 3 * u := by
+  have hhalf : |(1/2 : ℚ)| = 1/2 := abs_of_pos (by norm_num)
+  have ht : |1/2 + d| ≤ 1 + η := le_trans (abs_add_le _ _) (by rw [hhalf]; linarith)
+  have h1 : |1/2 + dt| ≤ 1/2 + 1/2 * (1 + u) := le_trans (abs_add_le _ _) (by rw [hhalf]; linarith)
+  have hst : |(1/2 + dt) * (1 + a)| ≤ (1/2 + 1/2 * (1 + u)) * (1 + u) := abs_mul_le_mul h1 (abs_one_add_le ha)
+  have hK : (1/2 + 1/2 * (1 + u)) * (1 + u) ≤ 1016/1000 := by nlinarith
+  have hdiff : |(1/2 + dt) * (1 + a) - (1/2 + d)| ≤ (η + u / 2) + (1/2 + 1/2 * (1 + u)) * u := by
+    have e : (1/2 + dt) * (1 + a) - (1/2 + d) = (dt - d) + (1/2 + dt) * a := by ring
+    rw [e]
+    exact le_trans (abs_add_le _ _) (by linarith [abs_mul_le_mul h1 ha])
+  have hsum : |(1/2 + dt) * (1 + a) + (1/2 + d)| ≤ 1016/1000 + (1 + η) :=
+    le_trans (abs_add_le _ _) (by linarith)
+  have t1 := abs_mul_le_mul hdiff hsum
+  have hsq : |((1/2 + dt) * (1 + a)) ^ 2| ≤ 1016/1000 * (1016/1000) := by
+    rw [pow_two]; exact abs_mul_le_mul (le_trans hst hK) (le_trans hst hK)
+  have hrel := rel_two hb hc
+  have t2 := abs_mul_le_mul hsq hrel
+  have e : 1/2 * (((1/2 + dt) * (1 + a)) ^ 2 * (1 + b)) * (1 + c) - 1/2 * (1/2 + d) ^ 2 =
+      1/2 * ((((1/2 + dt) * (1 + a)) - (1/2 + d)) * (((1/2 + dt) * (1 + a)) + (1/2 + d)) +
+        ((1/2 + dt) * (1 + a)) ^ 2 * ((1 + b) * (1 + c) - 1)) := by ring
+  rw [e, abs_mul, hhalf]
+  have tri := abs_add_le ((((1/2 + dt) * (1 + a)) - (1/2 + d)) * (((1/2 + dt) * (1 + a)) + (1/2 + d)))
+    (((1/2 + dt) * (1 + a)) ^ 2 * ((1 + b) * (1 + c) - 1))
+  have n1 : ((η + u / 2) + (1/2 + 1/2 * (1 + u)) * u) * (1016/1000 + (1 + η)) ≤ 2117/1000 * η + 33/10 * u := by
+    nlinarith
+  have n2 : 1016/1000 * (1016/1000) * (u + u + u * u) ≤ 21/10 * u := by nlinarith
+  linarith
+
+/-- **axis_weights_forward_error** (TSC).  Let the grid coordinate be computed with error at most `η ≤ 1/10` cell
+(`coord_forward_error`: `η ≤ 3.1 u |p|`), let `ix` be the nearest integer to the *computed* coordinate, and let the
+seven further operations of `dx = ix − px`, `0.75 − dx²`, `0.5 (0.5 ± dx)²` each carry a relative error at most
+`u ≤ 1/100`.  Then each computed weight differs from the exact polynomial weight at the same `ix` — the quantity
+`axis_is_kernel` is about, valid on `|dx| ≤ 1/2 + η` — by at most `(6/5) η + 3 u`. -/
+theorem axis_weights_forward_error {u η p pt : ℚ} {ix : ℤ} (hu0 : 0 ≤ u) (hu : u ≤ 1/100) (hη0 : 0 ≤ η)
+    (hη : η ≤ 1/10) (hp : |pt - p| ≤ η) (hix : |(ix : ℚ) - pt| ≤ 1/2)
+    {δ₂ δ₃ δ₄ δ₅ δ₆ δ₇ δ₈ δ₉ δ₁₀ : ℚ} (h₂ : |δ₂| ≤ u) (h₃ : |δ₃| ≤ u) (h₄ : |δ₄| ≤ u) (h₅ : |δ₅| ≤ u)
+    (h₆ : |δ₆| ≤ u) (h₇ : |δ₇| ≤ u) (h₈ : |δ₈| ≤ u) (h₉ : |δ₉| ≤ u) (h₁₀ : |δ₁₀| ≤ u) :
+    |(3/4 - (((ix : ℚ) - pt) * (1 + δ₂)) ^ 2 * (1 + δ₃)) * (1 + δ₄) - (3/4 - ((ix : ℚ) - p) ^ 2)| ≤ 6/5 * η + 3 * u ∧
+    |1/2 * (((1/2 + ((ix : ℚ) - pt) * (1 + δ₂)) * (1 + δ₅)) ^ 2 * (1 + δ₆)) * (1 + δ₇) -
+        1/2 * (1/2 + ((ix : ℚ) - p)) ^ 2| ≤ 6/5 * η + 3 * u ∧
+    |1/2 * (((1/2 - ((ix : ℚ) - pt) * (1 + δ₂)) * (1 + δ₈)) ^ 2 * (1 + δ₉)) * (1 + δ₁₀) -
+        1/2 * (1/2 - ((ix : ℚ) - p)) ^ 2| ≤ 6/5 * η + 3 * u := by
+  obtain ⟨he, hdt, hd⟩ := dist_forward_error hp hix h₂
+  refine ⟨centre_forward_error hu0 hu hη0 hη he hdt hd h₃ h₄,
+    side_forward_error hu0 hu hη0 hη he hdt hd h₅ h₆ h₇, ?_⟩
+  have he' : |-(((ix : ℚ) - pt) * (1 + δ₂)) - -((ix : ℚ) - p)| ≤ η + u / 2 := by
+    rw [neg_sub_neg, abs_sub_comm]; exact he
+  have := side_forward_error hu0 hu hη0 hη he' (by rw [abs_neg]; exact hdt) (by rw [abs_neg]; exact hd) h₈ h₉ h₁₀
+  simpa [sub_eq_add_neg] using this
+
+/-- when the computed coordinate rounds to the other neighbour (`1/2 < |dx| ≤ 1`), the polynomial weights at
+that `ix` differ from the documented kernel at the three cells by at most `(3/2)(|dx| − 1/2)²` -/
+theorem poly_vs_kernel {d : ℚ} (h1 : 1/2 ≤ d) (h2 : d ≤ 1) :
+    |1/2 * (1/2 + d) ^ 2 - Wtsc (d - 1)| ≤ 3/2 * (d - 1/2) ^ 2 ∧
+    |3/4 - d ^ 2 - Wtsc d| ≤ 3/2 * (d - 1/2) ^ 2 ∧
+    |1/2 * (1/2 - d) ^ 2 - Wtsc (d + 1)| ≤ 3/2 * (d - 1/2) ^ 2 := by
+  have hsq : 0 ≤ (d - 1/2) ^ 2 := sq_nonneg _
+  refine ⟨?_, ?_, ?_⟩
+  · have ha : |d - 1| = 1 - d := by rw [abs_of_nonpos (by linarith)]; ring
+    unfold Wtsc
+    rw [ha, if_pos (by linarith)]
+    have : 1/2 * (1/2 + d) ^ 2 - (3/4 - (d - 1) ^ 2) = 3/2 * (d - 1/2) ^ 2 := by ring
+    rw [this, abs_of_nonneg (by positivity)]
+  · have ha : |d| = d := abs_of_nonneg (by linarith)
+    unfold Wtsc
+    rw [ha]
+    by_cases h : d ≤ 1/2
+    · have : d = 1/2 := le_antisymm h h1
+      subst this; norm_num
+    · rw [if_neg h, if_pos (by linarith)]
+      have : 3/4 - d ^ 2 - (3/2 - d) ^ 2 / 2 = -(3/2 * (d - 1/2) ^ 2) := by ring
+      rw [this, abs_neg, abs_of_nonneg (by positivity)]
+  · have ha : |d + 1| = d + 1 := abs_of_nonneg (by linarith)
+    unfold Wtsc
+    rw [ha, if_neg (by linarith)]
+    by_cases h : d + 1 ≤ 3/2
+    · have : d = 1/2 := by linarith
+      subst this; norm_num
+    · rw [if_neg h, sub_zero, abs_of_nonneg (by positivity)]
+      nlinarith
+
+/-- CIC weights are piecewise linear in `dx`: `max(dx, 0)`, `1 − |dx|`, `max(−dx, 0)`; with one rounding on the
+centre weight the same bound holds -/
+theorem cic_axis_weights_forward_error {u η d dt b : ℚ} (hu0 : 0 ≤ u) (hu : u ≤ 1/100) (hη0 : 0 ≤ η)
+    (he : |dt - d| ≤ η + u / 2) (hdt : |dt| ≤ 1/2 * (1 + u)) (hb : |b| ≤ u) :
+    |(if dt > 0 then dt else 0) - (if d > 0 then d else 0)| ≤ 6/5 * η + 3 * u ∧
+    |(1 - |dt|) * (1 + b) - (1 - |d|)| ≤ 6/5 * η + 3 * u ∧
+    |(if dt > 0 then 0 else -dt) - (if d > 0 then 0 else -d)| ≤ 6/5 * η + 3 * u := by
+  have habs := abs_le.mp he
+  refine ⟨?_, ?_, ?_⟩
+  · split_ifs with h1 h2 h2 <;> rw [abs_le] <;> constructor <;> linarith [habs.1, habs.2]
+  · have e : (1 - |dt|) * (1 + b) - (1 - |d|) = (|d| - |dt|) + (1 - |dt|) * b := by ring
+    have h1 : |(|d| - |dt|)| ≤ η + u / 2 := le_trans (abs_abs_sub_abs_le_abs_sub d dt) (by rw [abs_sub_comm]; exact he)
+    have h2 : |(1 - |dt|)| ≤ 1 := by
+      rw [abs_le]; constructor <;> linarith [abs_nonneg dt]
+    have h3 := abs_mul_le_mul h2 hb
+    rw [e]
+    exact le_trans (abs_add_le _ _) (by linarith)
+  · split_ifs with h1 h2 h2 <;> rw [abs_le] <;> constructor <;> linarith [habs.1, habs.2]
+
+/-- **one `+=` term** `fl(fl(fl(w̃x · w̃y) · w̃z) · W)`: exact weights in `[0, 1]`, computed weights within `ε ≤ 1/10`
+of them, three rounded multiplications: the term is within `(4 ε + 5 u) |W|` of `wx · wy · wz · W`. -/
+theorem term_forward_error {u ε a b c at' bt ct W δ₁ δ₂ δ₃ : ℚ} (hu0 : 0 ≤ u) (hu : u ≤ 1/100) (hε0 : 0 ≤ ε)
+    (hε : ε ≤ 1/10) (ha : 0 ≤ a ∧ a ≤ 1) (hb : 0 ≤ b ∧ b ≤ 1) (hc : 0 ≤ c ∧ c ≤ 1)
+    (hat : |at' - a| ≤ ε) (hbt : |bt - b| ≤ ε) (hct : |ct - c| ≤ ε)
+    (h₁ : |δ₁| ≤ u) (h₂ : |δ₂| ≤ u) (h₃ : |δ₃| ≤ u) :
+    |((at' * bt * (1 + δ₁)) * ct * (1 + δ₂)) * W * (1 + δ₃) - a * b * c * W| ≤ (4 * ε + 5 * u) * |W| := by
+  have hA : |at'| ≤ 1 + ε := by
+    have : at' = a + (at' - a) := by ring
+    rw [this]; exact le_trans (abs_add_le _ _) (by rw [abs_of_nonneg ha.1]; linarith [ha.2])
+  have hB : |bt| ≤ 1 + ε := by
+    have : bt = b + (bt - b) := by ring
+    rw [this]; exact le_trans (abs_add_le _ _) (by rw [abs_of_nonneg hb.1]; linarith [hb.2])
+  have hC : |ct| ≤ 1 + ε := by
+    have : ct = c + (ct - c) := by ring
+    rw [this]; exact le_trans (abs_add_le _ _) (by rw [abs_of_nonneg hc.1]; linarith [hc.2])
+  have hab := abs_mul_le_mul hA hB
+  have habc := abs_mul_le_mul hab hC
+  -- product of the computed weights against the product of the exact ones
+  have e1 : at' * bt * ct - a * b * c = (at' - a) * (bt * ct) + a * ((bt - b) * ct) + a * b * (ct - c) := by ring
+  have p1 := abs_mul_le_mul hat (abs_mul_le_mul hB hC)
+  have p2 : |a * ((bt - b) * ct)| ≤ 1 * (ε * (1 + ε)) :=
+    abs_mul_le_mul (by rw [abs_of_nonneg ha.1]; exact ha.2) (abs_mul_le_mul hbt hC)
+  have p3 : |a * b * (ct - c)| ≤ 1 * 1 * ε :=
+    abs_mul_le_mul (abs_mul_le_mul (by rw [abs_of_nonneg ha.1]; exact ha.2) (by rw [abs_of_nonneg hb.1]; exact hb.2)) hct
+  have hprod : |at' * bt * ct - a * b * c| ≤ ε * ((1 + ε) * (1 + ε)) + 1 * (ε * (1 + ε)) + 1 * 1 * ε := by
+    rw [e1]
+    exact le_trans (abs_add_le _ _) (by linarith [abs_add_le ((at' - a) * (bt * ct)) (a * ((bt - b) * ct))])
+  -- the three roundings
+  have r2 := rel_two h₁ h₂
+  have r3 := rel_two (a := (1 + δ₁) * (1 + δ₂) - 1) (b := δ₃) r2 h₃
+  have e : ((at' * bt * (1 + δ₁)) * ct * (1 + δ₂)) * W * (1 + δ₃) - a * b * c * W =
+      ((at' * bt * ct - a * b * c) + (at' * bt * ct) * ((1 + ((1 + δ₁) * (1 + δ₂) - 1)) * (1 + δ₃) - 1)) * W := by ring
+  rw [e, abs_mul]
+  apply mul_le_mul_of_nonneg_right _ (abs_nonneg _)
+  have q := abs_mul_le_mul habc r3
+  have e2 : ε * ε ≤ 1/10 * ε := by nlinarith
+  have e3 : ε * ε * ε ≤ 1/100 * ε := by nlinarith [mul_nonneg hε0 hε0]
+  have u2 : u * u ≤ 1/100 * u := by nlinarith
+  have u3 : u * u * u ≤ 1/10000 * u := by nlinarith [mul_nonneg hu0 hu0]
+  have n1 : ε * ((1 + ε) * (1 + ε)) + 1 * (ε * (1 + ε)) + 1 * 1 * ε ≤ 4 * ε := by
+    have : ε * ((1 + ε) * (1 + ε)) + 1 * (ε * (1 + ε)) + 1 * 1 * ε = 3 * ε + 3 * (ε * ε) + ε * ε * ε := by ring
+    rw [this]; linarith
+  have hk : (1 + ε) * (1 + ε) * (1 + ε) ≤ 1331/1000 := by
+    have : (1 + ε) * (1 + ε) * (1 + ε) = 1 + 3 * ε + 3 * (ε * ε) + ε * ε * ε := by ring
+    rw [this]; linarith
+  have hr : u + u + u * u + u + (u + u + u * u) * u ≤ 304/100 * u := by
+    have : u + u + u * u + u + (u + u + u * u) * u = 3 * u + 3 * (u * u) + u * u * u := by ring
+    rw [this]; linarith
+  have hr0 : 0 ≤ u + u + u * u + u + (u + u + u * u) * u := by positivity
+  have n2 : (1 + ε) * (1 + ε) * (1 + ε) * (u + u + u * u + u + (u + u + u * u) * u) ≤ 5 * u := by
+    have := mul_le_mul hk hr hr0 (by norm_num : (0 : ℚ) ≤ 1331/1000)
+    linarith
+  exact le_trans (abs_add_le _ _) (by linarith)
+
+/-- floating-point accumulation `s ← fl(s + t)` of a list of terms onto a start value -/
+def flSum : ℚ → List (ℚ × ℚ) → ℚ
+  | s, [] => s
+  | s, (t, δ) :: rest => flSum ((s + t) * (1 + δ)) rest
+
+/-- **accumulation.**  `n` rounded additions of non-negative terms onto a non-negative start value: the result is
+within `((1+u)^n − 1)` times the exact total of the exact total. -/
+theorem sum_forward_error {u : ℚ} (ts : List (ℚ × ℚ)) (hpos : ∀ t ∈ ts, 0 ≤ t.1)
+    (hδ : ∀ t ∈ ts, |t.2| ≤ u) (s₀ s : ℚ) (hs₀ : 0 ≤ s₀) (S : ℚ) (hS : s₀ + (ts.map (·.1)).sum ≤ S) (k : ℕ)
+    (hk : |s - s₀| ≤ ((1 + u) ^ k - 1) * S) :
+    |flSum s ts - (s₀ + (ts.map (·.1)).sum)| ≤ ((1 + u) ^ (k + ts.length) - 1) * S := by
+  induction ts generalizing s s₀ k with
+  | nil => simpa [flSum] using hk
+  | cons t rest ih =>
+    obtain ⟨t, δ⟩ := t
+    have ht : 0 ≤ t := hpos (t, δ) (by simp)
+    have hd : |δ| ≤ u := hδ (t, δ) (by simp)
+    simp only [List.map_cons, List.sum_cons, List.length_cons] at hS ⊢
+    have hrest : 0 ≤ (rest.map (·.1)).sum := by
+      apply List.sum_nonneg
+      intro x hx
+      simp only [List.mem_map] at hx
+      obtain ⟨y, hy, rfl⟩ := hx
+      exact hpos y (by simp [hy])
+    have hS0 : 0 ≤ S := by linarith
+    have hstep : |(s + t) * (1 + δ) - (s₀ + t)| ≤ ((1 + u) ^ (k + 1) - 1) * S := by
+      have e : (s + t) * (1 + δ) - (s₀ + t) = (s - s₀) * (1 + δ) + (s₀ + t) * δ := by ring
+      have a1 := abs_mul_le_mul hk (abs_one_add_le hd)
+      have a2 : |(s₀ + t) * δ| ≤ S * u :=
+        abs_mul_le_mul (by rw [abs_of_nonneg (by linarith)]; linarith) hd
+      rw [e]
+      calc _ ≤ |(s - s₀) * (1 + δ)| + |(s₀ + t) * δ| := abs_add_le _ _
+        _ ≤ ((1 + u) ^ k - 1) * S * (1 + u) + S * u := by linarith
+        _ = ((1 + u) ^ (k + 1) - 1) * S := by ring
+    have := ih (fun x hx => hpos x (by simp [hx])) (fun x hx => hδ x (by simp [hx])) (s₀ + t) ((s + t) * (1 + δ))
+      (by linarith) (by linarith) (k + 1) hstep
+    simp only [flSum]
+    rw [show k + (rest.length + 1) = k + 1 + rest.length by ring, ← add_assoc]
+    exact this
+
+/-! non-vacuity: a coordinate that is exactly on the half-cell edge `p = 5/2` but is computed as `2.501`, so the
+implementation rounds to `ix = 3` where exact arithmetic takes `2`; every rounding error at its bound -/
+example :=
+  (axis_weights_forward_error (u := 1/1000) (η := 1/1000) (p := 5/2) (pt := 2501/1000) (ix := 3)
+    (by norm_num) (by norm_num) (by norm_num) (by norm_num) (by norm_num [abs_le]) (by norm_num [abs_le])
+    (δ₂ := 1/1000) (δ₃ := -1/1000) (δ₄ := 1/1000) (δ₅ := 1/1000) (δ₆ := 1/1000) (δ₇ := 1/1000) (δ₈ := 1/1000)
+    (δ₉ := 1/1000) (δ₁₀ := 1/1000)
+    (by norm_num [abs_le]) (by norm_num [abs_le]) (by norm_num [abs_le]) (by norm_num [abs_le])
+    (by norm_num [abs_le]) (by norm_num [abs_le]) (by norm_num [abs_le]) (by norm_num [abs_le])
+    (by norm_num [abs_le])).1
+
+example : |((7 + 1/2) * (1 + 1/1000)) * (((3 : ℚ) / 9) * (1 + -1/1000)) * (1 + 1/1000) - (7 + 1/2) * ((3 : ℚ) / 9)| ≤
+    31/10 * (1/1000) * |(7 + 1/2) * ((3 : ℚ) / 9)| :=
+  coord_forward_error (by norm_num) (by norm_num) (by norm_num [abs_le]) (by norm_num [abs_le]) (by norm_num [abs_le])
+
+example : |flSum (1/4) [(1/2, 1/1000), (1/8, -1/1000)] - (1/4 + (1/2 + (1/8 + 0)))| ≤ ((1 + 1/1000) ^ 2 - 1) * (7/8) := by
+  have := sum_forward_error (u := 1/1000) [(1/2, 1/1000), (1/8, -1/1000)] (by simp)
+    (by simp; norm_num [abs_le]) (1/4) (1/4) (by norm_num) (7/8) (by simp; norm_num) 0 (by norm_num)
+  simpa using this
 
 end AbacusVerif.Mass
